@@ -961,11 +961,7 @@ func Run(c *Case, mk func(*scalibr.ScanConfig), slow time.Duration) string {
 // content, symlinks to files of the given size kept OUTSIDE the root, unix sockets as special files), then re-orders every node's Kids to the order in which the
 // operating system lists the directory (the order ReadDir(1) yields), so that the case line describes the listing the scan will see.
 func materialise(t *Node) (string, error) {
-	base := os.Getenv("TMPDIR")
-	if _, err := os.Stat("/dev/shm"); err == nil && base == "" {
-		base = "/dev/shm"
-	}
-	tmp, err := os.MkdirTemp(base, "walkreal-")
+	tmp, err := os.MkdirTemp(os.Getenv("TMPDIR"), "walkreal-")
 	if err != nil {
 		return "", err
 	}
